@@ -5,7 +5,7 @@ from . import rule, info
 from ..program import AnalysisError, src, norm, ClassInfo
 from ..affine import linear, NotAffine
 from ..tables import MISS
-from ..util import (repetition_count, dispatch_chain, decision_function, Undecidable, locals_from_attrs, is_name, calls_in, callee_qual, deref, ancestors, evaluator_calls, stmt_of, parent,
+from ..util import (clone, repetition_count, dispatch_chain, decision_function, Undecidable, locals_from_attrs, is_name, calls_in, callee_qual, deref, ancestors, evaluator_calls, stmt_of, parent,
                     handler_outcomes, completes_normally, handler_covers, in_handler_of, raised_class, is_subclass,
                     cls_name, fmt_witness, kwarg)
 from .common import option_usage
@@ -202,8 +202,10 @@ def missing_tail(ctx):
                     return ast.Name(id='__k__', ctx=ast.Load())
                 return node
         import copy
-        return linear(R().visit(copy.deepcopy(e)), env)
+        return linear(R().visit(clone(e)), env)
     tail_path = deref(cfg, cfg.node_containing(t), a.args[0])
+    if isinstance(tail_path, ast.Call) and isinstance(tail_path.func, ast.Attribute) and tail_path.func.attr == 'from_t' and not tail_path.args:
+        tail_path = tail_path.func.value          # re-rooted at T (C11.23): the same steps
     try:
         ok = isinstance(tail_path, ast.Subscript) and isinstance(tail_path.slice, ast.Slice) and tail_path.slice.upper is None \
             and norm(tail_path.value) == 'self._orig_path' and idx(tail_path.slice.lower) == (1, 1)
@@ -281,28 +283,39 @@ def op_dispatch(ctx):
     p = ctx.program
     u = ctx.unit('core._assign_op')
     cfg = ctx.cfg(u)
-    chain, _tail = dispatch_chain(u.node.body)
-    ctx.require(chain, '_assign_op: dispatch not found')
-    by = {}
-    for c in chain:
-        t = c.test
-        if isinstance(t, ast.Compare) and is_name(t.left, 'op') and isinstance(t.comparators[0], ast.Constant):
-            by[t.comparators[0].value] = c
-    ctx.ob(set(by) == {'[', '.', 'P'}, u, 'assignment dispatches on the three assignable step kinds: %s' % sorted(by))
-    def eff(body):
-        # the branch's statements without a trailing bare ``return`` (guard-clause spelling)
-        body = list(body)
-        while body and (isinstance(body[-1], ast.Pass) or isinstance(body[-1], ast.Return) and body[-1].value is None):
+    # what runs for each step kind: the body with the tests on ``op`` decided (if/elif chain,
+    # guard clauses and a final ``if op != 'P': raise`` are the same dispatch)
+    from ..util import code_slice
+    tested = set()
+    for t in [n for n in u.own_nodes() if isinstance(n, ast.Compare) and is_name(n.left, 'op')]:
+        for c in t.comparators:
+            tested |= {x.value for x in ast.walk(c) if isinstance(x, ast.Constant) and isinstance(x.value, str)}
+    ctx.require(tested, '_assign_op: dispatch not found')
+    ctx.ob(tested == {'[', '.', 'P'}, u, 'assignment dispatches on the three assignable step kinds: %s' % sorted(tested))
+
+    def eff(code):
+        # the statements run for that kind, without a trailing bare ``return``
+        body = code_slice(u.node.body, 'op', code)
+        body = [s_ for s_ in body if not (isinstance(s_, ast.Expr) and isinstance(s_.value, ast.Constant))]
+        # a constant bound to a local nobody reads has no effect
+        read = {x.id for x in u.own_nodes() if isinstance(x, ast.Name) and isinstance(x.ctx, ast.Load)}
+        body = [s_ for s_ in body if not (isinstance(s_, ast.Assign) and len(s_.targets) == 1 and is_name(s_.targets[0])
+                                          and isinstance(s_.value, ast.Constant) and s_.targets[0].id not in read)]
+        while body and isinstance(body[-1], ast.Return) and body[-1].value is None:
             body.pop()
         return body
-    b = by.get('[')
-    ok = b is not None and len(eff(b.body)) == 1 and norm(b.body[0]) == 'dest[arg] = val'
-    ctx.ob(ok, u, "'[' stores dest[arg] = val: %s" % (norm(b.body[0]) if b else None))
-    b = by.get('.')
-    ok = b is not None and len(eff(b.body)) == 1 and norm(b.body[0]) == 'setattr(dest, arg, val)'
-    ctx.ob(ok, u, "'.' sets the attribute: %s" % (norm(b.body[0]) if b else None))
-    b = by.get('P')
-    ctx.require(b is not None, "_assign_op: 'P' branch not found")
+    b = eff('[')
+    ok = len(b) == 1 and norm(b[0]) == 'dest[arg] = val'
+    ctx.ob(ok, u, "'[' stores dest[arg] = val: %s" % [norm(x)[:40] for x in b])
+    b = eff('.')
+    ok = len(b) == 1 and norm(b[0]) == 'setattr(dest, arg, val)'
+    ctx.ob(ok, u, "'.' sets the attribute: %s" % [norm(x)[:40] for x in b])
+    pbody = eff('P')
+    ctx.require(pbody, "_assign_op: 'P' branch not found")
+
+    class _B:
+        body = pbody
+    b = _B
     gh = [c for s in b.body for c in ast.walk(s) if isinstance(c, ast.Call) and isinstance(c.func, ast.Attribute) and c.func.attr == 'get_handler']
     ok = len(gh) == 1 and isinstance(gh[0].args[0], ast.Constant) and gh[0].args[0].value == 'assign' and is_name(gh[0].args[1], 'dest')
     ctx.ob(ok, u, "'P' uses the destination's registered 'assign' handler: %s" % [norm(g) for g in gh])
@@ -323,7 +336,7 @@ def op_dispatch(ctx):
                 and isinstance(rs[0].exc, ast.Call) and is_name(rs[0].exc.args[0], h.ast.name) \
                 and [a.id if isinstance(a, ast.Name) else None for a in rs[0].exc.args[1:]] == ['path', 'arg']
             ctx.ob(ok, u, 'and converted to PathAssignError(<caught>, path, arg): %s' % [norm(r) for r in rs])
-    last = _tail
+    last = eff('<any other code>')
     ctx.ob(len(last) == 1 and isinstance(last[0], ast.Raise), u, 'any other step kind is refused, never ignored')
     ctx.floor(12)
 
@@ -533,4 +546,28 @@ def backfill_value_is_not_evaluated_again(ctx):
         ok = isinstance(a, ast.Call) and callee_qual(p, u, a) == 'core.Val' and len(a.args) == 1 and is_name(a.args[0], valv)
         ctx.ob(ok, u, 'the already evaluated value is handed to the nested Assign as a literal: %s' % (norm(a) if a is not None else None),
                '' if ok else 'the nested Assign evaluates %s a second time (against the new container)' % valv, node=c)
+    ctx.floor(1)
+
+
+@rule('C11.23')
+def backfill_destination_is_inside_the_new_container(ctx):
+    """the missing= back-fill evaluates a nested Assign against the fresh container; its
+    destination is the tail of the original path, and slicing a Path keeps its root.  For an
+    S-rooted destination the tail would again be addressed through the scope -- the value lands
+    in the scope frame, the new container stays empty and nothing is reported.  The tail is
+    therefore re-rooted at T (``.from_t()``) before the nested Assign is built"""
+    from ..util import expand_locals
+    p = ctx.program
+    u = ctx.unit('mutation.Assign.glomit')
+    cfg = ctx.cfg(u)
+    inner = [c for c in calls_in(u) if callee_qual(p, u, c) == 'mutation.Assign']
+    ctx.require(len(inner) >= 1, 'Assign.glomit: nested Assign for the missing tail not found')
+    for c in inner:
+        a = c.args[0] if c.args else kwarg(c, 'path')
+        e = expand_locals(cfg, cfg.node_of(stmt_of(c)), a) if a is not None else None
+        rerooted = isinstance(e, ast.Call) and isinstance(e.func, ast.Attribute) and e.func.attr == 'from_t' \
+            and isinstance(e.func.value, ast.Subscript) and isinstance(e.func.value.slice, ast.Slice)
+        ctx.ob(rerooted, u, 'the tail handed to the nested Assign is re-rooted at T: %s' % (norm(e) if e is not None else None),
+               '' if rerooted else 'a slice of an S-rooted path is still S-rooted: Assign(S[..][..][..], v, missing=dict) writes the tail '
+               'into the scope and leaves the new container empty', node=c)
     ctx.floor(1)
